@@ -387,7 +387,7 @@ class VmControlData(TlbScheme):
 
     @classmethod
     def deserialize(cls, cell_slice: Slice) -> "VmControlData":
-        kwargs = {}
+        kwargs = {'nargs': None, 'stack': None, 'cp': None}
         is_nargs = cell_slice.load_bit()
         if is_nargs:
             kwargs['nargs'] = cell_slice.load_uint(13)
